@@ -159,7 +159,10 @@ def ijepa_configs(tier):
 
 def make_ijepa(cfg):
     from kappadata.collators.kd_ijepa_mask_collator import KDIjepaMaskCollator
-    return KDIjepaMaskCollator(input_size=(cfg["g"][0] * 2, cfg["g"][1] * 2), patch_size=2, encoder_mask_scale=cfg["enc"],
+    # the patch grid is what matters; it is reached through square (int), wide and tall patches
+    ph, pw = ((2, 2), (2, 3), (3, 1), (1, 4))[(cfg["g"][0] + cfg["n_enc"] + cfg["n_pred"] + cfg["B"] + cfg["min_keep"]) % 4]
+    return KDIjepaMaskCollator(input_size=(cfg["g"][0] * ph, cfg["g"][1] * pw), patch_size=2 if (ph, pw) == (2, 2) else (ph, pw),
+                               encoder_mask_scale=cfg["enc"],
                                predictor_mask_scale=cfg["pred"], predictor_aspect_ratio=cfg["ar"], num_enc_masks=cfg["n_enc"],
                                num_pred_masks=cfg["n_pred"], min_keep=cfg["min_keep"], tries=1, dataset_mode="x", return_ctx=True)
 
